@@ -96,3 +96,13 @@ func (msg *Message) hasComplete() bool {
 	}
 	return msg.ExtensionFields.SubcontractComplete
 }
+
+// copyHeader 复制一份请求头 会话和分包记录各自持有 不和已经交给其他协程的消息共用
+func copyHeader(h *jt808.Header) *jt808.Header {
+	header := *h
+	if h.Property != nil {
+		property := *h.Property
+		header.Property = &property
+	}
+	return &header
+}
